@@ -94,8 +94,14 @@ func Run(ctx *common.Ctx) {
 			src, dst, b := ctx.Rng.Intn(nvars), ctx.Rng.Intn(nvars), ctx.Rng.Intn(nvars)
 			var lisp, g string
 			x := ctx.Rng.Intn(100)
-			if step < 2 || (lens[src] == 0 && ctx.Rng.Chance(70)) {
+			if step < 2 || (lens[src] == 0 && ctx.Rng.Chance(45)) {
 				x = 0 // start with some lists
+			}
+			if lens[src] == 0 && x >= 10 && ctx.Rng.Chance(60) {
+				// prefer a source that holds a list
+				for try := 0; try < 4 && lens[src] == 0; try++ {
+					src = ctx.Rng.Intn(nvars)
+				}
 			}
 			switch {
 			case x < 10:
